@@ -3,7 +3,7 @@
    extracted file into the current directory. *)
 From Coq Require Import Extraction ExtrOcamlBasic.
 From LV Require Import Base.Bytes Base.Utf8 Base.Base64 Model.Codec Model.Response Model.ServerInfo
-  Model.Auth Model.Client Spec.SmtpData.
+  Model.Auth Model.Client Model.Address Spec.SmtpData Spec.Xtext.
 Extraction Language OCaml.
 Extraction "model.ml"
   Codec.encode Codec.wire SmtpData.server_data SmtpData.recv
@@ -11,4 +11,5 @@ Extraction "model.ml"
   Response.parse_response Response.read_line Response.wire_of
   ServerInfo.from_response ServerInfo.xtext ServerInfo.get_auth_mechanism
   Auth.mech_response Auth.auth_initial Auth.auth_from_response
-  Client.run_session.
+  Client.run_session
+  Utf8.utf8 Utf8.utf8_decode Address.addr_from_str Address.addr_new Address.strip_brackets Xtext.xdec.
